@@ -262,7 +262,7 @@ Qed.
 
 Lemma inv_dclose : forall cfg s d, inv s -> inv (dclose cfg s d).
 Proof.
-  intros cfg s d [HF HC]. unfold dclose. destruct (dtag_open cfg s d); cbn [negb]; [|split; assumption].
+  intros cfg s d [HF HC]. unfold dclose. destruct (negb _); [split; assumption|].
   match goal with |- inv (mkSt (map ?f _) _ _ _ _) => destruct (inv_map_peers f (peers s)) as [H1 H2] end.
   - intros pi Hp. destruct (p_tracked pi) eqn:Etr; [|exact Hp].
     apply with_dec_ok; [exact Hp|exact Etr|]. rewrite zsum_upd. destruct Hp as [_ [Hv _]]. lia.
@@ -270,6 +270,12 @@ Proof.
   - exact HF.
   - split; cbn [peers count]; [exact H1|]. rewrite H2. exact HC.
 Qed.
+
+Lemma inv_dcloseq : forall cfg s d, inv s -> inv (dcloseq cfg s d).
+Proof. intros cfg s d [HF HC]. unfold dcloseq. destruct (negb _); split; assumption. Qed.
+
+Lemma inv_dregister : forall cfg s d acc, inv s -> inv (dregister cfg s d acc).
+Proof. intros cfg s d acc [HF HC]. unfold dregister. destruct (_ && _); split; assumption. Qed.
 
 Lemma inv_tick : forall cfg s t, inv s -> inv (tick cfg s t).
 Proof.
